@@ -258,7 +258,13 @@ def run_history(env, scn, hist, scratch, viol, stats):
     with_cache = scn.get("cache") == "memory"
     set_cache(MemoryCache() if with_cache else NoCache())
     stats["cache.%s" % scn.get("cache", "none")] = stats.get("cache.%s" % scn.get("cache", "none"), 0) + 1
-    case = Case(scn, scratch)
+    try:
+        case = Case(scn, scratch)
+    except Exception as e:
+        # declaring recipes (storing the recipes file, mounting the recipe store) is part of what the property is about
+        viol("recipe_store_cannot_be_set_up", "[%s %s dir=%r] storing the recipes file / mounting the recipe store raised %r" % (
+            scn["backend"], scn["mount"], scn["dir"], e), {"scenario": scn, "history": []})
+        return
     try:
         store = case.store
         for step, (op, key) in enumerate(hist):
@@ -468,7 +474,12 @@ def run_shard(spec):
         rnd = random.Random("%s/C08/%s" % (spec["seed"], spec["part"]))
         for h in range(spec["n"]):
             scn = gen_scenario(rnd)
-            probe = Case(scn, scratch)
+            try:
+                probe = Case(scn, scratch)
+            except Exception as e:
+                viol("recipe_store_cannot_be_set_up", "[%s %s dir=%r] storing the recipes file / mounting the recipe store raised %r" % (
+                    scn["backend"], scn["mount"], scn["dir"], e), {"scenario": scn, "history": []})
+                continue
             keys = sorted(probe.decl)
             probe.close()
             hist = gen_history(rnd, keys)
